@@ -289,6 +289,37 @@ def returns_call(f, call, also=()):
     return True
 
 
+def ws_triple(f, nm):
+    """WaitableSet::{poll,wait} returns (built-in result, payload[0], payload[1]) of the buffer it passed"""
+    aggs = [s for b in sorted(f.live) for s in f.stmts(b)
+            if s["k"] == "=" and s["p"]["l"] == 0 and not s["p"].get("p") and s["rv"]["k"] == "agg"
+            and "tuple" in s["rv"]]
+    if len(aggs) != 1 or len(aggs[0]["rv"]["ops"]) != 3 or len(f.defs.get(0, [])) != 1:
+        return False
+    ops = aggs[0]["rv"]["ops"]
+    o0 = f.origin(ops[0])
+    if not (o0.get("kind") == "call" and mir.norm(o0["call"].callee).endswith("waitable_set::" + nm)
+            and not o0.get("proj") and len(o0["call"].args) == 2):
+        return False
+    buf = f.origin(o0["call"].args[1])
+    m = re.fullmatch(r"_(\d+)(\.\*)*", buf.get("place", "")) if buf.get("kind") == "place" else None
+    if not m:
+        return False
+    idx = []
+    for op in ops[1:]:
+        p = op.get("mv") or op.get("cp")
+        ds = [d for d in f.defs.get(p["l"], []) if d[2] == "assign"] if p and not p.get("p") else []
+        if len(ds) != 1 or ds[0][3]["k"] != "use":
+            return False
+        src = ds[0][3]["o"].get("cp") or ds[0][3]["o"].get("mv")
+        if not src or src["l"] != int(m.group(1)) or len(src.get("p", [])) != 1:
+            return False
+        mi = re.fullmatch(r"\[_(\d+)\]", src["p"][0])
+        mc = re.fullmatch(r"\[(\d+)( of \d+)?\]", src["p"][0])
+        idx.append(f.origin({"cp": {"l": int(mi.group(1))}}).get("v") if mi else int(mc.group(1)) if mc else None)
+    return idx == [0, 1]
+
+
 def diverges(f, b):
     return not (f.reachable(b) & set(f.returns()))
 
@@ -775,6 +806,11 @@ def one(rep, c, cfg):
                        not (f.reachable(t, avoid=[cb.bb]) & set(f.returns()))
                        and all(own_set(f, x.args[0]) for x in w),
                        f"{len(w)} {want} call(s) in the arm; {len(calls_in(f, reg, never))} {never} call(s)", f.loc(b))
+        for nm in ("poll", "wait"):
+            h = c.method("WaitableSet", nm)
+            rep.saw(h)
+            rep.ob("R22.3", f"WaitableSet::{nm} returns (event0, payload[0], payload[1]) of the built-in {tag}",
+                   ws_triple(h, nm), "the event triple handed to the executor is permuted or not the built-in's", h.loc())
         # the event passed to the callback: (EVENT_NONE,0,0) first, afterwards what poll/wait returned
         ev_locals = set()
         for a in cb.args[1:]:
